@@ -5,8 +5,8 @@
      <k> N type rows cols freqs        I valid mcells scells eterms leak systems conn tterms freqs
      <k> T h                           I
      <k> A h ...                       I check cells nprm p... neq sys:terms...   (check 0 refused before any request, 1 ok, 2 refused after vnm_s_matrix)
-     <k> E h ...                       I class n            (class 0 bad count, 1 clear, 2 invalid, 3 set)
-     <k> S h                           I total trl          (total requests of the fault-free call)
+     <k> E h ...                       I class n            (class 0 bad count, 1 clear, 2 invalid, 3 set, 4 the spline refuses the frequencies)
+     <k> S h                           I total trl ninit ncal fails   (requests of the fault-free call: total, of solve_init alone, of calibration_alloc alone; a kernel gives up)
      <k> F h                           I
      <k> end                           (no I line)
    A first argument "variant=<NFixed|NClearDangling|NHoldEarly|NSplineLate>" selects the model variant.
@@ -82,6 +82,7 @@ let () =
          | Some wd ->
            let s = with_fault k !st in
            let h () = nat_of_int (a 0) in
+           let solve_fails = ref false and count_note = ref "" in
            let wop = (match op with
                | "N" ->
                  Some (WNew { c_valid = (ia 0 <> 0); c_freqs = nat_of_int (ia 8); c_mcells = nat_of_int (ia 1); c_scells = nat_of_int (ia 2);
@@ -102,18 +103,25 @@ let () =
                  end
                | "E" ->
                  if List.length info < 2 || List.nth info 1 = "none" then Some (WMErr (h (), MEBadCount))
-                 else Some (WMErr (h (), (match ia 0 with 0 -> MEBadCount | 1 -> MEClear | 2 -> MEInvalid | _ -> MESet (nat_of_int (ia 1)))))
+                 else Some (WMErr (h (), (match ia 0 with 0 -> MEBadCount | 1 -> MEClear | 2 -> MEInvalid | 4 -> MESplineInvalid (nat_of_int (ia 1)) | _ -> MESet (nat_of_int (ia 1)))))
                | "S" ->
-                 if List.length info < 2 || List.nth info 1 = "none" then Some (WSolve (h (), O, false))
+                 if List.length info < 2 || List.nth info 1 = "none" then Some (WSolve (h (), O, false, false))
                  else begin
-                   let total = ia 0 and trl = (ia 1 <> 0) in
+                   let total = ia 0 and trl = (ia 1 <> 0) and ninit = ia 2 and ncal = ia 3 and fails = (ia 4 <> 0) in
+                   solve_fails := fails;
+                   (match handle wd (h ()) with
+                    | Some v when ninit >= 0 && ncal >= 0 ->
+                      (* the request lists of _vnacal_new_solve_init and _vnacal_calibration_alloc, one by one *)
+                      let mi = int_of_nat (solve_init_requests v) and mc = int_of_nat (cal_requests v.vn_cfg) in
+                      if mi <> ninit || mc <> ncal then count_note := Printf.sprintf " !requests solve_init model %d C %d, calibration_alloc model %d C %d" mi ninit mc ncal
+                    | _ -> ());
                    (* temporary requests of the numeric kernels = total of the fault-free call - the requests the model accounts for *)
                    let base = (match handle wd (h ()) with
                        | None -> 0
                        | Some v ->
                          let s0 = with_fault (-1) !st in
-                         (match solve !nv v wd.w_prm O trl s0 with Ok (_, s1) -> requests s0 s1 | Fault _ -> 0)) in
-                   Some (WSolve (h (), nat_of_int (max 0 (total - base)), trl))
+                         (match solve !nv v wd.w_prm O trl fails s0 with Ok (_, s1) -> requests s0 s1 | Fault _ -> 0)) in
+                   Some (WSolve (h (), nat_of_int (max 0 (total - base)), trl, fails))
                  end
                | "F" -> Some (WFree (h ()))
                | _ -> None) in
@@ -124,7 +132,9 @@ let () =
                | Fault f -> Printf.printf "FAULT %s\n" (fault_name f)
                | Ok ((wd', out), s') ->
                  w := Some wd'; st := s';
-                 Printf.printf "R %s %d %d%s\n" (out_str out) (length s'.live) (requests s s') (summary wd'))))
+                 (* a kernel that gives up reports a math error (EDOM): errno class EOTHER on the C side *)
+                 let os = (match out with Err EINVAL when !solve_fails && op = "S" && (match handle wd (h ()) with Some v -> v.vn_fvalid | None -> false) -> "Err EOTHER" | _ -> out_str out) in
+                 Printf.printf "R %s %d %d%s%s\n" os (length s'.live) (requests s s') (summary wd') !count_note)))
       | _ -> ()
     done
   with End_of_file -> ());
